@@ -210,14 +210,14 @@ def run_item(item):
     elif fam == "notations":
         y = item["year"]
         step = item["step"]
-        offsets = [o * 60 for o in range(-23 * 60 - 59, 24 * 60, step)] + [-86399, 86399, 1, -1, 3661, -7262, 5 * 3600 + 30 * 60]
+        offsets = [o * 60 for o in range(-23 * 60 - 59, 24 * 60, step)] + [-86399, 86399, 1, -1, 30, -30, 59, 3661, -7262, 5 * 3600 + 30 * 60]
         for t in _critical_instants(y):
             verdicts = set()
             for i, off in enumerate(offsets):
                 style = i % B.N_STYLES
                 if style in (6, 7) and off != 0:
                     style = 0
-                vs = check_instant(t, off, style, ("932", "934", "931") if i % 5 == 0 else ("932", "934"))
+                vs = check_instant(t, off, style, ("932", "934", "931") if (i % 5 == 0 or off % 60) else ("932", "934"))
                 _acc(r, vs, off % 3600 != 0)
                 r.transitions += 2
             _acc(r, check_instant(t, 0, 6, ("931", "932", "933", "934", "935")))
